@@ -86,6 +86,8 @@ class Module:
             f2, _ = fold_tables(self, qual, fn)
             f2, exp = inline_new_helpers(self, qual, f2)
             if exp:
+                from .normalise import FoldConstantComp
+                f2 = FoldConstantComp().visit(f2)
                 f2, _ = fold_tables(self, qual, f2)
             cache[qual] = f2
         return cache[qual]
@@ -125,6 +127,8 @@ class Module:
             fn, folded = fold_tables(self, qual, fn)
             fn, expanded = inline_new_helpers(self, qual, fn)
             if expanded:
+                from .normalise import FoldConstantComp
+                fn = FoldConstantComp().visit(fn)
                 fn, folded2 = fold_tables(self, qual, fn)
                 if folded2:
                     # a helper named by a table row is only visible now
